@@ -253,10 +253,16 @@ Section Store.
 
   (* ---------------- the cache is transparent ---------------- *)
 
-  (* loader invariant: a cached session is what the file on disk parses to *)
-  Definition inv (fs : fsys) (l : loader) : Prop :=
+  (* Loader invariant, relative to the latest modification time handed out so far ([now]):
+     the loader cached at a time that has been handed out, and if the file still carries that
+     time, the cached session is what the file parses to. *)
+  Definition inv (now : N) (fs : fsys) (l : loader) : Prop :=
     forall c, l_cached l = Some c ->
-      exists content t, files fs (l_path l) = Some (content, t) /\ parse content = Ok c.
+      l_last l <= now /\
+      forall content t, files fs (l_path l) = Some (content, t) -> t = l_last l -> parse content = Ok c.
+
+  Definition time_le (now : N) (fs : fsys) (p : bytes) : Prop :=
+    forall content t, files fs p = Some (content, t) -> t <= now.
 
   Definition res_of_parse (r : outcome session) : load_res :=
     match r with Ok s => LOk s | Err => LErr | Panic => LPanic end.
@@ -276,23 +282,48 @@ Section Store.
     - destruct (parse content); reflexivity.
   Qed.
 
-  Lemma load_transparent fs l : inv fs l ->
-    fst (load fs l) = load_direct fs (l_path l) /\ inv fs (snd (load fs l)).
+  Lemma load_eq_miss fs l c mt s : files fs (l_path l) = Some (c, mt) -> l_cached l = None ->
+    parse c = Ok s -> load fs l = (LOk s, mkLoader (l_path l) mt (Some s)).
+  Proof. intros Hf Hc Hp. unfold Session.load. now rewrite Hf, Hc, Hp. Qed.
+
+  Lemma load_eq_hit fs l c mt s : files fs (l_path l) = Some (c, mt) -> l_cached l = Some s ->
+    mt = l_last l -> load fs l = (LOk s, l).
+  Proof. intros Hf Hc Hm. unfold Session.load. rewrite Hf, Hc, Hm, N.eqb_refl. reflexivity. Qed.
+
+  Lemma load_transparent now fs l : inv now fs l -> time_le now fs (l_path l) ->
+    fst (load fs l) = load_direct fs (l_path l) /\ inv now fs (snd (load fs l)).
   Proof.
-    intros Hinv. unfold Session.load, load_direct.
+    intros Hinv Htl. unfold Session.load, load_direct.
     destruct (files fs (l_path l)) as [[content mt]|] eqn:Hf; [|split; [reflexivity|exact Hinv]].
-    assert (Hnew : forall s, parse content = Ok s -> inv fs (mkLoader (l_path l) mt (Some s))).
-    { intros s Hs c Hc. cbn [l_cached l_path] in *. injection Hc as <-. eauto. }
+    assert (Hnew : forall s, parse content = Ok s -> inv now fs (mkLoader (l_path l) mt (Some s))).
+    { intros s Hs c Hc. cbn [l_cached l_path l_last] in *. injection Hc as <-. split.
+      - exact (Htl content mt Hf).
+      - intros content' t' Hf' _. rewrite Hf in Hf'. now injection Hf' as <- <-. }
     destruct (l_cached l) as [c|] eqn:Hc.
-    - destruct (Hinv c Hc) as (content' & t' & Hf' & Hp). rewrite Hf in Hf'. injection Hf' as <- <-.
-      destruct (mt =? l_last l).
-      + cbn [fst snd]. rewrite Hp. split; [reflexivity|exact Hinv].
-      + rewrite Hp. cbn [fst snd res_of_parse]. split; [reflexivity|now apply Hnew].
+    - destruct (N.eqb_spec mt (l_last l)) as [He|Hn].
+      + destruct (Hinv c Hc) as [_ Hp]. rewrite (Hp content mt Hf He).
+        cbn [fst snd res_of_parse]. split; [reflexivity|exact Hinv].
+      + destruct (parse content) as [s| |] eqn:Hp; cbn [fst snd res_of_parse]; split; auto.
     - destruct (parse content) as [s| |] eqn:Hp; cbn [fst snd res_of_parse]; split; auto.
   Qed.
 
-  Lemma inv_fresh fs p : inv fs (fresh p).
+  Lemma inv_fresh now fs p : inv now fs (fresh p).
   Proof. intros c Hc. discriminate. Qed.
+
+  Lemma inv_mono now now' fs l : now <= now' -> inv now fs l -> inv now' fs l.
+  Proof. intros Hle Hi c Hc. destruct (Hi c Hc) as [H1 H2]. split; [lia|exact H2]. Qed.
+
+  Lemma time_le_mono now now' fs p : now <= now' -> time_le now fs p -> time_le now' fs p.
+  Proof. intros Hle Ht content t Hf. specialize (Ht content t Hf). lia. Qed.
+
+  (* a change of the file that carries a time later than [now] cannot be mistaken for the cached state *)
+  Lemma inv_newer_write now fs l v t : inv now fs l -> now < t ->
+    (forall content t', v = Some (content, t') -> t' = t) ->
+    inv (N.max now t) (fs_set fs (l_path l) v) l.
+  Proof.
+    intros Hi Hlt Hv c Hc. destruct (Hi c Hc) as [H1 _]. split; [lia|].
+    intros content t' Hf Ht'. rewrite files_set_same in Hf. apply Hv in Hf. lia.
+  Qed.
 
   (* ---------------- simulation with the reference store ---------------- *)
 
@@ -303,8 +334,16 @@ Section Store.
                    exists t, files fs p = Some (firstn n (render s), t)
     end.
 
-  Definition sim (p : bytes) (st : istate) (fs : fsys) (l : loader) : Prop :=
-    l_path l = p /\ inv fs l /\ dirs fs (go_dir p) = DDir /\ file_is fs p st.
+  Definition sim (p : bytes) (now : N) (st : istate) (fs : fsys) (l : loader) : Prop :=
+    l_path l = p /\ inv now fs l /\ time_le now fs p /\ dirs fs (go_dir p) = DDir /\ file_is fs p st.
+
+  Lemma sim_intro p now st fs l : l_path l = p -> inv now fs l -> time_le now fs p ->
+    dirs fs (go_dir p) = DDir -> file_is fs p st -> sim p now st fs l.
+  Proof. intros. unfold sim. tauto. Qed.
+
+  Lemma file_is_intro fs p s n t : session_ok s = true -> (n <= length (render s))%nat ->
+    files fs p = Some (firstn n (render s), t) -> file_is fs p (IFile s n).
+  Proof. intros. cbn [file_is]. eauto. Qed.
 
   Lemma load_direct_ideal p st fs : dirs fs (go_dir p) = DDir -> file_is fs p st ->
     load_direct fs p = ideal_load st.
@@ -315,26 +354,35 @@ Section Store.
       destruct (n <? length (render s))%nat; reflexivity.
   Qed.
 
-  Lemma sim_load p st fs l : sim p st fs l ->
-    fst (load fs l) = ideal_load st /\ sim p st fs (snd (load fs l)).
+  Lemma sim_load p now st fs l : sim p now st fs l ->
+    fst (load fs l) = ideal_load st /\ sim p now st fs (snd (load fs l)).
   Proof.
-    intros (Hp & Hi & Hd & Hf). destruct (load_transparent fs l Hi) as [H1 H2].
+    intros (Hp & Hi & Ht & Hd & Hf). rewrite <- Hp in Ht.
+    destruct (load_transparent now fs l Hi Ht) as [H1 H2]. rewrite Hp in Ht.
     split.
     - rewrite H1, Hp. now apply load_direct_ideal.
-    - repeat split; auto. now rewrite load_path.
+    - apply sim_intro; auto. now rewrite load_path.
   Qed.
 
-  Lemma sim_fresh p st fs l : sim p st fs l -> sim p st fs (fresh p).
-  Proof. intros (Hp & Hi & Hd & Hf). repeat split; auto using inv_fresh. Qed.
+  Lemma sim_fresh p now st fs l : sim p now st fs l -> sim p now st fs (fresh p).
+  Proof. intros (Hp & Hi & Ht & Hd & Hf). apply sim_intro; auto using inv_fresh. Qed.
 
-  Lemma store_ok p fs l s t : l_path l = p -> dirs fs (go_dir p) = DDir -> session_ok s = true ->
+  Lemma sim_mono p now now' st fs l : now <= now' -> sim p now st fs l -> sim p now' st fs l.
+  Proof.
+    intros Hle (Hp & Hi & Ht & Hd & Hf). apply sim_intro; eauto using inv_mono, time_le_mono.
+  Qed.
+
+  Lemma time_le_set now fs p c t : time_le (N.max now t) (fs_set fs p (Some (c, t))) p.
+  Proof. intros content t' Hf. rewrite files_set_same in Hf. injection Hf as <- <-. lia. Qed.
+
+  Lemma store_ok p now fs l s t : l_path l = p -> dirs fs (go_dir p) = DDir -> session_ok s = true ->
     exists l', store fs l s t = (Ok tt, fs_set fs p (Some (render s, t)), l') /\
-               sim p (IFile s (length (render s))) (fs_set fs p (Some (render s, t))) l'.
+               sim p (N.max now t) (IFile s (length (render s))) (fs_set fs p (Some (render s, t))) l'.
   Proof.
     intros Hp Hd Hs. unfold Session.store. rewrite Hp, Hd. eexists. split; [reflexivity|].
-    repeat split; auto.
+    apply sim_intro; auto using time_le_set.
     - intros c Hc. discriminate.
-    - exists t. now rewrite files_set_same, firstn_all.
+    - apply (file_is_intro _ _ _ _ t); auto. now rewrite files_set_same, firstn_all.
   Qed.
 
   Lemma client_path_nonempty p host fs : p <> [] ->
@@ -344,43 +392,63 @@ Section Store.
     destruct (load fs (fresh (n :: p))); reflexivity.
   Qed.
 
-  Lemma sim_step p st fs l o : p <> [] -> sim p st fs l -> proper o = true ->
+  Lemma sim_step p now st fs l o : p <> [] -> sim p now st fs l -> proper o = true ->
+    foreign_ok now o = true ->
     exists fs' l',
-      step fs l o = (fs', l', snd (ideal_step st o)) /\ sim p (fst (ideal_step st o)) fs' l'.
+      step fs l o = (fs', l', snd (ideal_step st o)) /\
+      sim p (next_now now o) (fst (ideal_step st o)) fs' l'.
   Proof.
-    intros Hne Hsim Hpr. pose proof Hsim as (Hp & Hi & Hd & Hf).
-    destruct o as [s t| | |k t|c t|host|host t]; cbn [proper] in Hpr.
+    intros Hne Hsim Hpr Hfo. pose proof Hsim as (Hp & Hi & Ht & Hd & Hf).
+    destruct o as [s t| | |k t|c t|k t|s t|host|host t]; cbn [proper] in Hpr;
+      unfold next_now; cbn [op_time].
     - (* Store *)
-      destruct (store_ok p fs l s t Hp Hd Hpr) as (l' & Hst & Hs').
+      destruct (store_ok p now fs l s t Hp Hd Hpr) as (l' & Hst & Hs').
       cbn [Session.step Session.ideal_step fst snd]. rewrite Hst. eauto.
     - (* Load *)
-      destruct (sim_load p st fs l Hsim) as [H1 H2].
+      destruct (sim_load p now st fs l Hsim) as [H1 H2].
       cbn [Session.step Session.ideal_step fst snd].
       destruct (load fs l) as [r l'] eqn:E. cbn [fst snd] in *. subst r. eauto.
     - (* Fresh *)
       cbn [Session.step Session.ideal_step fst snd]. rewrite Hp. eauto using sim_fresh.
-    - (* Crash *)
+    - (* Crash: the process is gone, new loader *)
       cbn [Session.step Session.ideal_step fst snd]. rewrite Hp. do 2 eexists. split; [reflexivity|].
       unfold crash. destruct st as [|s n]; cbn [file_is] in Hf.
-      + rewrite Hf. repeat split; auto using inv_fresh.
+      + rewrite Hf. apply sim_intro; auto using inv_fresh. apply (time_le_mono now); [lia|exact Ht].
       + destruct Hf as (Hs & Hn & t0 & Hf). rewrite Hf.
-        repeat split; auto using inv_fresh; [lia|].
-        exists t. now rewrite files_set_same, firstn_firstn.
+        apply sim_intro; auto using inv_fresh, time_le_set.
+        apply (file_is_intro _ _ _ _ t); auto; [lia|]. now rewrite files_set_same, firstn_firstn.
     - discriminate.
+    - (* Tear by another writer: this loader lives on *)
+      unfold foreign_ok in Hfo. cbn [foreign_op op_time] in Hfo. apply N.ltb_lt in Hfo.
+      cbn [Session.step Session.ideal_step fst snd]. rewrite Hp. do 2 eexists. split; [reflexivity|].
+      unfold crash. destruct st as [|s n]; cbn [file_is] in Hf.
+      + rewrite Hf. apply (sim_mono p now); [lia|exact Hsim].
+      + destruct Hf as (Hs & Hn & t0 & Hf). rewrite Hf.
+        apply sim_intro; auto using time_le_set.
+        { rewrite <- Hp. apply inv_newer_write; auto. intros content t' H. now injection H. }
+        apply (file_is_intro _ _ _ _ t); auto; [lia|]. now rewrite files_set_same, firstn_firstn.
+    - (* complete store by another loader: this loader lives on *)
+      unfold foreign_ok in Hfo. cbn [foreign_op op_time] in Hfo. apply N.ltb_lt in Hfo.
+      cbn [Session.step Session.ideal_step fst snd].
+      destruct (store_ok p now fs (fresh (l_path l)) s t) as (l' & Hst & Hs'); auto.
+      rewrite Hst. do 2 eexists. split; [reflexivity|].
+      destruct Hs' as (_ & _ & Ht' & Hd' & Hf').
+      apply sim_intro; auto.
+      rewrite <- Hp. apply inv_newer_write; auto. intros content t' H. now injection H.
     - (* Client *)
       cbn [Session.step Session.ideal_step fst snd]. rewrite Hp, client_path_nonempty by exact Hne.
-      cbn [fst]. destruct (sim_load p st fs (fresh p) (sim_fresh p st fs l Hsim)) as [H1 _].
+      cbn [fst]. destruct (sim_load p now st fs (fresh p) (sim_fresh p now st fs l Hsim)) as [H1 _].
       rewrite H1. eauto.
     - (* ClientSave *)
       cbn [Session.step Session.ideal_step]. rewrite Hp, client_path_nonempty by exact Hne.
-      destruct (sim_load p st fs (fresh p) (sim_fresh p st fs l Hsim)) as [H1 H2].
+      destruct (sim_load p now st fs (fresh p) (sim_fresh p now st fs l Hsim)) as [H1 H2].
       rewrite H1. destruct H2 as (Hp2 & _).
       assert (Hsave : forall s, session_ok s = true ->
         exists fs' l', (let '(sr, fs', _) := store fs (snd (load fs (fresh p))) s t in
                         (fs', fresh p, ObsClientSave (Ok (client_of s)) sr))
                        = (fs', l', ObsClientSave (Ok (client_of s)) (Ok tt))
-                       /\ sim p (IFile s (length (render s))) fs' l').
-      { intros s Hs. destruct (store_ok p fs _ s t Hp2 Hd Hs) as (l' & Hst & Hs').
+                       /\ sim p (N.max now t) (IFile s (length (render s))) fs' l').
+      { intros s Hs. destruct (store_ok p now fs _ s t Hp2 Hd Hs) as (l' & Hst & Hs').
         rewrite Hst. do 2 eexists. split; [reflexivity|]. eapply sim_fresh; eauto. }
       destruct (ideal_load st) as [s| | |] eqn:Hl; cbn [client_decide fst snd].
       + assert (Hs : session_ok s = true).
@@ -392,40 +460,56 @@ Section Store.
       + set (s := session_of_client (client_new host)).
         assert (Hs : session_ok s = true).
         { unfold s, session_of_client, client_new, session_ok. cbn. exact Hpr. }
-        destruct (store_ok p fs _ s t Hp2 Hd Hs) as (l' & Hst & Hs').
+        destruct (store_ok p now fs _ s t Hp2 Hd Hs) as (l' & Hst & Hs').
         fold s. rewrite Hst. do 2 eexists. split; [reflexivity|]. eapply sim_fresh; eauto.
-      + do 2 eexists. split; [reflexivity|]. eapply sim_fresh; eauto.
-      + do 2 eexists. split; [reflexivity|]. eapply sim_fresh; eauto.
+      + do 2 eexists. split; [reflexivity|]. apply (sim_mono p now); [lia|]. eapply sim_fresh; eauto.
+      + do 2 eexists. split; [reflexivity|]. apply (sim_mono p now); [lia|]. eapply sim_fresh; eauto.
   Qed.
 
-  Theorem run_refines p ops : forall st fs l, p <> [] -> sim p st fs l ->
-    forallb proper ops = true -> run fs l ops = ideal_run st ops.
+  Theorem run_refines p ops : forall now st fs l, p <> [] -> sim p now st fs l ->
+    forallb proper ops = true -> foreign_newer now ops = true -> run fs l ops = ideal_run st ops.
   Proof.
-    induction ops as [|o r IH]; intros st fs l Hne Hsim Hpr; [reflexivity|].
+    induction ops as [|o r IH]; intros now st fs l Hne Hsim Hpr Hfn; [reflexivity|].
     cbn [forallb] in Hpr. apply andb_true_iff in Hpr. destruct Hpr as [Ho Hr].
-    destruct (sim_step p st fs l o Hne Hsim Ho) as (fs' & l' & Hst & Hs').
+    cbn [foreign_newer] in Hfn. apply andb_true_iff in Hfn. destruct Hfn as [Hfo Hfr].
+    destruct (sim_step p now st fs l o Hne Hsim Ho Hfo) as (fs' & l' & Hst & Hs').
     cbn [Session.run Session.ideal_run]. rewrite Hst.
-    destruct (ideal_step st o) as [st' ob]. cbn [fst snd] in *. f_equal. now apply IH.
+    destruct (ideal_step st o) as [st' ob]. cbn [fst snd] in *. f_equal. now apply (IH (next_now now o)).
   Qed.
 
   (* start: directory exists, file does not, new loader *)
-  Lemma sim_start p fs : dirs fs (go_dir p) = DDir -> files fs p = None -> sim p IAbsent fs (fresh p).
-  Proof. intros Hd Hf. repeat split; auto using inv_fresh. Qed.
+  Lemma sim_start p now fs : dirs fs (go_dir p) = DDir -> files fs p = None -> sim p now IAbsent fs (fresh p).
+  Proof.
+    intros Hd Hf. apply sim_intro; auto using inv_fresh. intros content t H. rewrite Hf in H. discriminate.
+  Qed.
 
   Theorem history_refines p fs ops : p <> [] -> dirs fs (go_dir p) = DDir -> files fs p = None ->
-    forallb proper ops = true -> run fs (fresh p) ops = ideal_run IAbsent ops.
-  Proof. intros. apply run_refines with (p := p); auto using sim_start. Qed.
+    forallb proper ops = true -> foreign_newer 0 ops = true ->
+    run fs (fresh p) ops = ideal_run IAbsent ops.
+  Proof. intros. apply run_refines with (p := p) (now := 0); auto using sim_start. Qed.
 
   (* start anywhere: whatever the file holds and whatever the loader has cached, from the
      first Store on the history behaves like the reference store *)
   Theorem history_refines_any_start fs l s t ops :
     l_path l <> [] -> dirs fs (go_dir (l_path l)) = DDir -> session_ok s = true ->
-    forallb proper ops = true ->
+    forallb proper ops = true -> foreign_newer t ops = true ->
     run fs l (OStore s t :: ops) = ideal_run IAbsent (OStore s t :: ops).
   Proof.
-    intros Hne Hd Hs Hpr. cbn [Session.run Session.ideal_run Session.step Session.ideal_step].
-    destruct (store_ok (l_path l) fs l s t eq_refl Hd Hs) as (l' & Hst & Hs').
-    rewrite Hst. f_equal. now apply run_refines with (p := l_path l).
+    intros Hne Hd Hs Hpr Hfn. cbn [Session.run Session.ideal_run Session.step Session.ideal_step].
+    destruct (store_ok (l_path l) 0 fs l s t eq_refl Hd Hs) as (l' & Hst & Hs').
+    rewrite Hst. f_equal. rewrite N.max_r in Hs' by lia.
+    now apply run_refines with (p := l_path l) (now := t).
+  Qed.
+
+  (* histories without foreign writers need no condition on the times *)
+  Definition own_op (o : op) : bool := negb (foreign_op o).
+
+  Lemma own_foreign_newer ops : forallb own_op ops = true -> forall now, foreign_newer now ops = true.
+  Proof.
+    induction ops as [|o r IH]; intros H now; [reflexivity|].
+    cbn [forallb] in H. apply andb_true_iff in H. destruct H as [Ho Hr].
+    cbn [foreign_newer]. rewrite IH by exact Hr. unfold foreign_ok. unfold own_op in Ho.
+    destruct (foreign_op o); [discriminate|reflexivity].
   Qed.
 
   (* ---------------- last store wins, in plain words ---------------- *)
@@ -444,7 +528,7 @@ Section Store.
   Proof.
     induction ops as [|o r IH]; intros st Hw Hs; [reflexivity|].
     cbn [forallb] in Hs. apply andb_true_iff in Hs. destruct Hs as [Ho Hr].
-    destruct o as [s t| | |k t|c t|host|host t]; cbn [simple_op] in Ho; try discriminate;
+    destruct o as [s t| | |k t|c t|k t|s t|host|host t]; cbn [simple_op] in Ho; try discriminate;
       cbn [Session.ideal_run Session.ideal_step last_store_run].
     - f_equal. now apply (IH (IFile s (length (render s)))).
     - f_equal; [|now apply IH]. f_equal.
@@ -459,10 +543,16 @@ Section Store.
     intros [Ho Hr]. split; [|now apply IH]. destruct o; cbn in *; auto; discriminate.
   Qed.
 
+  Lemma simple_own ops : forallb simple_op ops = true -> forallb own_op ops = true.
+  Proof.
+    induction ops as [|o r IH]; [reflexivity|]. cbn [forallb]. rewrite !andb_true_iff.
+    intros [Ho Hr]. split; [|now apply IH]. destruct o; cbn in *; auto; discriminate.
+  Qed.
+
   Theorem last_store_wins p fs ops : p <> [] -> dirs fs (go_dir p) = DDir -> files fs p = None ->
     forallb simple_op ops = true -> run fs (fresh p) ops = last_store_run None ops.
   Proof.
-    intros Hne Hd Hf Hs. rewrite history_refines by auto using simple_proper.
+    intros Hne Hd Hf Hs. rewrite history_refines by auto using simple_proper, own_foreign_newer, simple_own.
     now apply (ideal_simple ops IAbsent).
   Qed.
 
@@ -471,7 +561,8 @@ Section Store.
     forallb simple_op ops = true ->
     run fs l (OStore s t :: ops) = last_store_run None (OStore s t :: ops).
   Proof.
-    intros Hne Hd Hs Hso. rewrite history_refines_any_start by auto using simple_proper.
+    intros Hne Hd Hs Hso.
+    rewrite history_refines_any_start by auto using simple_proper, own_foreign_newer, simple_own.
     apply (ideal_simple (OStore s t :: ops) IAbsent I). cbn [forallb simple_op]. now rewrite Hs.
   Qed.
 
@@ -485,21 +576,35 @@ Section Store.
 
   (* ---------------- torn file ---------------- *)
 
+  (* any loader that can see the tear: nothing cached, or cached at another modification time *)
+  Theorem tear_load_error fs l s k t : session_ok s = true -> (k < length (render s))%nat ->
+    files fs (l_path l) = Some (firstn k (render s), t) ->
+    l_cached l = None \/ t <> l_last l ->
+    load fs l = (LErr, l).
+  Proof.
+    intros Hs Hk Hf Hc. unfold Session.load. rewrite Hf, parse_torn by assumption.
+    destruct (l_cached l) as [c|]; [|reflexivity].
+    destruct (N.eqb_spec t (l_last l)); [|reflexivity]. destruct Hc; [discriminate|contradiction].
+  Qed.
+
   Theorem torn_is_error fs l s k t : session_ok s = true -> (k < length (render s))%nat ->
     files fs (l_path l) = Some (firstn k (render s), t) -> l_cached l = None ->
     load fs l = (LErr, l).
+  Proof. intros. apply (tear_load_error fs l s k t); auto. Qed.
+
+  Lemma run_repeat_load fs l r : load fs l = (r, l) ->
+    forall n, run fs l (repeat OLoad n) = repeat (ObsLoad r) n.
   Proof.
-    intros Hs Hk Hf Hc. unfold Session.load. rewrite Hf, Hc, parse_torn by assumption. reflexivity.
+    intros H n. induction n as [|n IH]; [reflexivity|].
+    cbn [repeat Session.run Session.step]. rewrite H. now rewrite IH.
   Qed.
 
-  (* whatever the loader has cached (consistently with the disk), a torn file never yields a session *)
-  Theorem torn_never_a_session fs l s k t : session_ok s = true -> (k < length (render s))%nat ->
-    files fs (l_path l) = Some (firstn k (render s), t) -> inv fs l ->
-    fst (load fs l) = LErr.
-  Proof.
-    intros Hs Hk Hf Hi. destruct (load_transparent fs l Hi) as [H1 _]. rewrite H1.
-    unfold load_direct. rewrite Hf, parse_torn by assumption. reflexivity.
-  Qed.
+  (* ... and it stays an error however often that loader asks *)
+  Theorem tear_every_load_error fs l s k t n : session_ok s = true -> (k < length (render s))%nat ->
+    files fs (l_path l) = Some (firstn k (render s), t) ->
+    l_cached l = None \/ t <> l_last l ->
+    run fs l (repeat OLoad n) = repeat (ObsLoad LErr) n.
+  Proof. intros. apply run_repeat_load. now apply (tear_load_error fs l s k t). Qed.
 
   (* store then crash at k then restart, starting from any state *)
   Theorem store_crash_load fs l s t k t' : l_path l <> [] -> dirs fs (go_dir (l_path l)) = DDir ->
@@ -511,14 +616,113 @@ Section Store.
     rewrite Nat.min_l by lia. destruct (Nat.ltb_spec k (length (render s))); [reflexivity|lia].
   Qed.
 
+  (* helpers for histories with blocks of repeated loads *)
+  Lemma ideal_run_loads st n rest :
+    ideal_run st (repeat OLoad n ++ rest) = repeat (ObsLoad (ideal_load st)) n ++ ideal_run st rest.
+  Proof. induction n as [|n IH]; [reflexivity|]. cbn [repeat app Session.ideal_run Session.ideal_step]. now rewrite IH. Qed.
+
+  Lemma proper_loads n rest : forallb proper (repeat OLoad n ++ rest) = forallb proper rest.
+  Proof. induction n as [|n IH]; [reflexivity|]. cbn [repeat app forallb proper]. exact IH. Qed.
+
+  Lemma foreign_newer_loads now n rest : foreign_newer now (repeat OLoad n ++ rest) = foreign_newer now rest.
+  Proof. induction n as [|n IH]; [reflexivity|]. cbn [repeat app foreign_newer]. exact IH. Qed.
+
+  (* A long-lived loader has cached a good session; ANOTHER writer leaves a torn file on a later
+     tick: every Load of the surviving loader, and after a restart every Load of a new one, is
+     an error. From any starting state. *)
+  Theorem tear_history fs l s t k t' n m : l_path l <> [] -> dirs fs (go_dir (l_path l)) = DDir ->
+    session_ok s = true -> (k < length (render s))%nat -> t < t' ->
+    run fs l ([OStore s t; OLoad; OTear k t'] ++ repeat OLoad n ++ OFresh :: repeat OLoad m)
+    = [ObsStore (Ok tt); ObsLoad (LOk s); ObsNone] ++ repeat (ObsLoad LErr) n ++ ObsNone :: repeat (ObsLoad LErr) m.
+  Proof.
+    intros Hne Hd Hs Hk Hlt. cbn [app].
+    rewrite history_refines_any_start; auto.
+    - cbn [Session.ideal_run Session.ideal_step]. rewrite ideal_load_full.
+      rewrite ideal_run_loads. cbn [Session.ideal_run Session.ideal_step].
+      replace (repeat OLoad m) with (repeat OLoad m ++ []) by apply app_nil_r.
+      rewrite ideal_run_loads. cbn [Session.ideal_run]. rewrite app_nil_r.
+      assert (He : ideal_load (IFile s (Nat.min k (length (render s)))) = LErr).
+      { unfold Session.ideal_load. rewrite Nat.min_l by lia.
+        destruct (Nat.ltb_spec k (length (render s))); [reflexivity|lia]. }
+      now rewrite He.
+    - cbn [forallb proper]. rewrite proper_loads. cbn [forallb proper].
+      replace (repeat OLoad m) with (repeat OLoad m ++ []) by apply app_nil_r.
+      now rewrite proper_loads.
+    - cbn [foreign_newer]. unfold foreign_ok, next_now. cbn [foreign_op op_time andb].
+      rewrite foreign_newer_loads. cbn [foreign_newer]. unfold foreign_ok, next_now. cbn [foreign_op op_time andb].
+      replace (repeat OLoad m) with (repeat OLoad m ++ []) by apply app_nil_r.
+      rewrite foreign_newer_loads. cbn [foreign_newer]. rewrite andb_true_r. apply N.ltb_lt. exact Hlt.
+  Qed.
+
+  (* Another loader stores a complete session on a later tick: the surviving loader returns it. *)
+  Theorem foreign_newer_wins fs l a b t t' n : l_path l <> [] -> dirs fs (go_dir (l_path l)) = DDir ->
+    session_ok a = true -> session_ok b = true -> t < t' ->
+    run fs l ([OStore a t; OLoad; OForeign b t'] ++ repeat OLoad n)
+    = [ObsStore (Ok tt); ObsLoad (LOk a); ObsNone] ++ repeat (ObsLoad (LOk b)) n.
+  Proof.
+    intros Hne Hd Ha Hb Hlt. cbn [app].
+    rewrite history_refines_any_start; auto.
+    - cbn [Session.ideal_run Session.ideal_step]. rewrite ideal_load_full.
+      replace (repeat OLoad n) with (repeat OLoad n ++ []) by apply app_nil_r.
+      rewrite ideal_run_loads. cbn [Session.ideal_run]. now rewrite app_nil_r, ideal_load_full.
+    - cbn [forallb proper]. rewrite Hb. cbn [andb].
+      replace (repeat OLoad n) with (repeat OLoad n ++ []) by apply app_nil_r. now rewrite proper_loads.
+    - cbn [foreign_newer]. unfold foreign_ok, next_now. cbn [foreign_op op_time andb].
+      replace (repeat OLoad n) with (repeat OLoad n ++ []) by apply app_nil_r.
+      rewrite foreign_newer_loads. cbn [foreign_newer]. rewrite andb_true_r. apply N.ltb_lt. exact Hlt.
+  Qed.
+
+  (* What the modification-time keyed cache cannot see (exact behaviour of the code): a change by
+     ANOTHER writer that lands on the very tick the surviving loader cached at. The surviving loader
+     keeps answering with the session it read before - the last one it stored and read back itself -
+     until the file's time changes or the loader stores; a new loader sees the file as it is. *)
+  Theorem foreign_equal_tick_unseen fs l a b t k : l_path l <> [] -> dirs fs (go_dir (l_path l)) = DDir ->
+    session_ok a = true -> session_ok b = true -> (k < length (render a))%nat ->
+    run fs l [OStore a t; OLoad; OForeign b t; OLoad; OFresh; OLoad]
+    = [ObsStore (Ok tt); ObsLoad (LOk a); ObsNone; ObsLoad (LOk a); ObsNone; ObsLoad (LOk b)]
+    /\ run fs l [OStore a t; OLoad; OTear k t; OLoad; OFresh; OLoad]
+    = [ObsStore (Ok tt); ObsLoad (LOk a); ObsNone; ObsLoad (LOk a); ObsNone; ObsLoad LErr].
+  Proof.
+    intros Hne Hd Ha Hb Hk.
+    set (p := l_path l) in *.
+    set (fs1 := fs_set fs p (Some (render a, t))).
+    set (l1 := mkLoader p (l_last l) None).
+    set (l2 := mkLoader p t (Some a)).
+    assert (Hst : store fs l a t = (Ok tt, fs1, l1)).
+    { unfold Session.store. fold p; try fold p. now rewrite Hd. }
+    assert (Hl1 : load fs1 l1 = (LOk a, l2)).
+    { apply (load_eq_miss fs1 l1 (render a) t a); [apply files_set_same|reflexivity|now apply parse_render]. }
+    split.
+    - set (fs3 := fs_set fs1 p (Some (render b, t))).
+      assert (Hfo : store fs1 (fresh p) b t = (Ok tt, fs3, mkLoader p 0 None)).
+      { unfold Session.store. cbn [l_path fresh l_last]. unfold fs1 at 1. rewrite dirs_set. now rewrite Hd. }
+      assert (Hl2 : load fs3 l2 = (LOk a, l2)).
+      { apply (load_eq_hit fs3 l2 (render b) t a); [apply files_set_same|reflexivity|reflexivity]. }
+      assert (Hl3 : load fs3 (fresh p) = (LOk b, mkLoader p t (Some b))).
+      { apply (load_eq_miss fs3 (fresh p) (render b) t b); [apply files_set_same|reflexivity|now apply parse_render]. }
+      cbn [Session.run Session.step]. rewrite Hst. cbn [Session.run Session.step]. fold p.
+      rewrite Hl1. cbn [l_path l2]. rewrite Hfo, Hl2. cbn [l_path l2]. now rewrite Hl3.
+    - set (fs3 := fs_set fs1 p (Some (firstn k (render a), t))).
+      assert (Hcr : crash fs1 p k t = fs3).
+      { unfold crash. unfold fs1 at 1. now rewrite files_set_same. }
+      assert (Hl2 : load fs3 l2 = (LOk a, l2)).
+      { apply (load_eq_hit fs3 l2 (firstn k (render a)) t a); [apply files_set_same|reflexivity|reflexivity]. }
+      assert (Hl3 : load fs3 (fresh p) = (LErr, fresh p)).
+      { apply (tear_load_error fs3 (fresh p) a k t); auto. apply files_set_same. }
+      cbn [Session.run Session.step]. rewrite Hst. cbn [Session.run Session.step]. fold p.
+      rewrite Hl1. cbn [l_path l2]. rewrite Hcr, Hl2. cbn [l_path l2]. now rewrite Hl3.
+  Qed.
+
   (* ---------------- restart decision of NewMTProto ---------------- *)
 
   Theorem resume_decision p host fs st : p <> [] -> dirs fs (go_dir p) = DDir -> file_is fs p st ->
     fst (new_mtproto fs p host) = client_decide host (ideal_load st).
   Proof.
     intros Hne Hd Hf. rewrite client_path_nonempty by exact Hne. cbn [fst].
-    assert (Hsim : sim p st fs (fresh p)) by (repeat split; auto using inv_fresh).
-    destruct (sim_load p st fs (fresh p) Hsim) as [H1 _]. now rewrite H1.
+    unfold Session.load. cbn [l_path fresh l_cached].
+    pose proof (load_direct_ideal p st fs Hd Hf) as H. unfold load_direct in H.
+    destruct (files fs p) as [[content mt]|]; [|now rewrite <- H].
+    rewrite <- H. destruct (parse content); reflexivity.
   Qed.
 
   Theorem resume_after_store fs l s t host : l_path l <> [] -> dirs fs (go_dir (l_path l)) = DDir ->
